@@ -31,15 +31,19 @@ import (
 )
 
 type Case struct {
-	Prog   string   `json:"prog,omitempty"`   // whole-system half: "" = index (one index module), "index2" = two index modules built by the same job
-	System string   `json:"system,omitempty"` // whole-system half: which cache files of a previous run are kept (none | index | all | all-but-index)
-	Seg    uint64   `json:"seg,omitempty"`
-	Start  uint64   `json:"start,omitempty"`
-	Stop   uint64   `json:"stop,omitempty"`
-	Expr   string   `json:"expr"`
-	Assign []int    `json:"assign"` // per block (100,101,102): bitmask over keys
-	Keys   []string `json:"keys"`
-	File   bool     `json:"file,omitempty"` // also through index.File save+load
+	Prog string `json:"prog,omitempty"` // whole-system half: "" = index (one index module), "index2" = two index modules built by the same job
+	// whole-system half, system "failing-write": the n-th object write of the first request fails once after consuming its
+	// body (an index file written empty by a bad retry is a valid index that matches nothing); the same request is then
+	// served again on the cache the first one left
+	FailWrite int      `json:"fail_write,omitempty"`
+	System    string   `json:"system,omitempty"` // whole-system half: which cache files of a previous run are kept (none | index | all | all-but-index)
+	Seg       uint64   `json:"seg,omitempty"`
+	Start     uint64   `json:"start,omitempty"`
+	Stop      uint64   `json:"stop,omitempty"`
+	Expr      string   `json:"expr"`
+	Assign    []int    `json:"assign"` // per block (100,101,102): bitmask over keys
+	Keys      []string `json:"keys"`
+	File      bool     `json:"file,omitempty"` // also through index.File save+load
 }
 
 var blocks = []uint64{100, 101, 102}
@@ -59,8 +63,13 @@ func evalSystem(cs Case) (*core.Fail, bool) {
 	mk := func(dir string) sysrun.Config {
 		return sysrun.Config{Modules: p.Modules, Output: p.Output, Prod: true, Seg: cs.Seg, Start: int64(cs.Start), Stop: cs.Stop, Final: cs.Stop + 2, Dir: dir, Source: sysrun.LinearChain{Head: cs.Stop + 3, Final: cs.Stop + 3}, Timeout: 15 * time.Second}
 	}
-	r0 := sysrun.Run(mk(base))
+	cfg0 := mk(base)
+	cfg0.FailWrite = cs.FailWrite
+	r0 := sysrun.Run(cfg0)
 	desc := fmt.Sprintf("%s program prod [%d,%d) seg=%d keep=%s", p.Name, cs.Start, cs.Stop, cs.Seg, cs.System)
+	if cs.FailWrite > 0 {
+		desc += fmt.Sprintf(" (object write #%d of the first request fails once after its body was consumed)", cs.FailWrite)
+	}
 	if r0.Err != nil {
 		return core.Failf("system:clean-run-failed", "%s: %v", desc, r0.Err), false
 	}
@@ -91,6 +100,8 @@ func evalSystem(cs Case) (*core.Fail, bool) {
 			nIndex++
 		}
 		switch cs.System {
+		case "failing-write":
+			keep[f] = true
 		case "index-first": // only the index files of one of several index modules
 			keep[f] = isIdx && len(dirs) > 0 && strings.HasPrefix(f, dirs[0]+"/")
 		case "index-second":
@@ -102,6 +113,9 @@ func evalSystem(cs Case) (*core.Fail, bool) {
 		case "all-but-index":
 			keep[f] = !isIdx
 		}
+	}
+	if cs.FailWrite > 0 && !r0.WriteFaultHit {
+		return nil, false // the request does not write that many objects
 	}
 	if nIndex == 0 {
 		return core.Failf("system:no-index-file-written", "%s: the clean run left no index file", desc), false
@@ -324,6 +338,11 @@ func Run(ctx *core.Ctx) int {
 		for _, seg := range []uint64{3, 4, 6} {
 			for _, se := range [][2]uint64{{1, 2*seg + 1}, {seg + 1, 3 * seg}, {0, seg}} {
 				for _, prog := range []string{"", "index2"} {
+					for n := 1; n <= 14; n++ {
+						if !emit(Case{Prog: prog, System: "failing-write", FailWrite: n, Seg: seg, Start: se[0], Stop: se[1]}) {
+							return
+						}
+					}
 					modes := []string{"none", "index", "all", "all-but-index"}
 					if prog == "index2" {
 						modes = append(modes, "index-first", "index-second")
